@@ -88,7 +88,16 @@ func keysForAlg(alg string) []int {
 	return out
 }
 
+// pubKey returns the public key of pool entry idx; -1 is the nil key; -2 and
+// -3 are malformed Ed25519 public keys (31 bytes, empty) such as a sloppy
+// trust store might hold.
 func pubKey(idx int) crypto.PublicKey {
+	switch idx {
+	case -2:
+		return ed25519.PublicKey(make([]byte, 31))
+	case -3:
+		return ed25519.PublicKey{}
+	}
 	if idx < 0 || idx >= len(keyPool) {
 		return nil
 	}
@@ -128,7 +137,14 @@ func (r *detReader) Read(p []byte) (int, error) {
 	return n, nil
 }
 
-func (d detKey) Sign(_ io.Reader, digest []byte, opts crypto.SignerOpts) ([]byte, error) {
+func (d detKey) Sign(rnd io.Reader, digest []byte, opts crypto.SignerOpts) ([]byte, error) {
+	// Draw from the randomness source the library handed over, as a real signer
+	// would (so that whatever the library puts there is exercised, also
+	// concurrently), but do not let it influence the signature.
+	if rnd != nil {
+		var scratch [32]byte
+		_, _ = io.ReadFull(rnd, scratch[:])
+	}
 	switch k := d.k.Priv.(type) {
 	case *ecdsa.PrivateKey:
 		var h crypto.Hash
